@@ -629,13 +629,41 @@ def rule_i(ctx, out):
                     order = [(tuple(e[0]), e[1]) for e in seq]
                     env.update(extra_dep_info={}, debug=False, u_dict=u_dict, non_aliasing_disabled=False, storage_dep=[], memory_dep=[],
                                memory_order=list(order) if loc == "memory" else [], storage_order=list(order) if loc == "storage" else [])
+                    got_plain = ([], [])
                     try:
-                        mi.call(f, recs, False, 2)
+                        mi.call(f, [dict(r) for r in recs], False, 2)
+                        got_plain = (list(env["memory_order"]), list(env["storage_order"]))
                     except Raised as e:
                         out.bad(f"order-after-dead-loads:{loc}:raises", f"update_storage_sequences raises {e.what} on [{mr.show(seq)}] with loads {removed} unused", where(f))
                         continue
                     except Unsupported as e:
                         raise AnalysisError(f"update_storage_sequences: cannot evaluate abstractly on [{mr.show(seq)}]: {e}")
+                    # the same call with the re-simplification switched on: the store instructions were generated from this sequence
+                    # before (the i-th store is <LOC>STORE_i), so whatever the simplification does now, the stores of the order must stay
+                    # the same ones — or the function must give up (raise: the block is then kept unoptimized)
+                    env.update(extra_dep_info={}, debug=False, u_dict=dict(u_dict), non_aliasing_disabled=False, storage_dep=[], memory_dep=[],
+                               variable_content={f"o{k}": f"s({100 + k})" for k in range(len(loads))}, gas_store_op=0, gas_memory_op=0, discount_op=0, rule_applied=False,
+                               rules_applied=[], memory_opt=[False] * 3, storage_opt=[False] * 3, mem_delete_pos=[], sto_delete_pos=[],
+                               memory_order=list(order) if loc == "memory" else [], storage_order=list(order) if loc == "storage" else [])
+                    try:
+                        mi.call(f, [dict(r) for r in recs], True, 2)
+                        after = env["memory_order"] if loc == "memory" else env["storage_order"]
+                        st_before = [e for e in order if "store" in e[0][-1]]
+                        st_after = [e for e in after if "store" in e[0][-1]]
+                        n += 1
+                        if len(st_after) == len(st_before):
+                            out.ok()
+                        else:
+                            out.bad(f"order-after-dead-loads:{loc}:store-dropped-after-rules", f"update_storage_sequences (re-simplifying) on [{mr.show(seq)}] with the result of "
+                                    f"load #{removed} unused leaves the stores [{mr.show(st_after)}] of [{mr.show(st_before)}] in the order: the store instructions "
+                                    f"were numbered from the order before, so instructions and dependences no longer correspond (a store without any ordering)", where(f),
+                                    {"sequence": mr.show(seq), "unused_loads": list(removed), "order_after": mr.show(after)})
+                    except Raised:
+                        n += 1
+                        out.ok()      # gives up: contained, the block is kept
+                    except Unsupported as e:
+                        raise AnalysisError(f"update_storage_sequences (with simplification): cannot evaluate abstractly on [{mr.show(seq)}]: {e}")
+                    env.update(memory_order=list(got_plain[0]), storage_order=list(got_plain[1]))
                     got = env["memory_order"] if loc == "memory" else env["storage_order"]
                     gone = [loads[k] for k in removed]
                     want = [e for e in order if e not in gone]
